@@ -104,7 +104,10 @@ func famCodec(w *World) {
 			}
 			return &jsonRes{Tag: req.Tag, Body: req.Body + "/resp", Saw: ctx.Headers()}, nil
 		},
-	}, func(ctx context.Context, err error) { w.probe("C18.json-handler-error") })
+	}, func(ctx context.Context, err error) {
+		w.probe("C18.json-handler-error")
+		w.event("json-onerror", "%v", err)
+	})
 	httpReqs := map[string]*httpSeen{}
 	httpPlans := map[string]*httpPlan{}
 	srv.Ch.Register(tchannel.HandlerFunc(func(ctx context.Context, call *tchannel.InboundCall) {
@@ -197,6 +200,19 @@ func famCodec(w *World) {
 			jctx := tjson.WithHeaders(ctx, reqH)
 			var res jsonRes
 			body := str(scn(100000), tag)
+			if scnChance(1, 2) {
+				// the encoded document ends on or next to a multiple of the 4096-byte buffers
+				// that sit between the argument stream and the JSON decoder
+				overhead := len(`{"tag":"","body":""}`) + len(tag)
+				n := (1+scn(6))*4096 - overhead + scn(5) - 2
+				if scnChance(1, 4) {
+					n = 512*(1+scn(16)) - overhead + scn(3) - 1
+				}
+				if n < 0 {
+					n = 0
+				}
+				body = str(n, tag)
+			}
 			err := tjson.CallPeer(jctx, peer, srv.Service, "jecho", &jsonReq{Tag: tag, Body: body}, &res)
 			cancel()
 			w.probe("ops.done")
